@@ -113,10 +113,10 @@ theorem hasDerivAt_tanh' (v : ℝ) : HasDerivAt Real.tanh (1 / (Real.cosh v * Re
   have he : (Real.sinh / Real.cosh) = Real.tanh := by
     funext y; simp [Real.tanh_eq_sinh_div_cosh]
   rw [he] at h
-  convert h using 1
   have h1 : Real.cosh v * Real.cosh v - Real.sinh v * Real.sinh v = 1 := by
     have := Real.cosh_sq v; nlinarith
-  rw [h1, pow_two]
+  rw [h1, pow_two] at h
+  exact h
 
 theorem dep_not_const (x : String) (e : Expr ν) (h : e.dependsOn x = true) : e.isConstant = false := by
   induction e with
@@ -437,7 +437,38 @@ theorem diff_sound (R : RInterp ν) (O : DOps ν) (hO : OpsSound R O) (x : Strin
         simp only [ev_div, ev_mul, ev_fn1, F1_cosh, F_self]
         ring
   | fn2 f a b _ _ => intro e' hp h hs; simp [diff] at h
-  | cond c a b ihc iha ihb => sorry
+  | cond c a b ihc iha ihb =>
+    intro e' hp h hs
+    simp only [plain, Bool.and_eq_true] at hp
+    simp only [SideOK] at hs
+    simp only [diff] at h
+    have hF : ∀ t, F R x (.cond c a b) t = if hd (R.at x t) c then F R x a t else F R x b t := by
+      intro t; simp [F]
+    cases hc : hd R c
+    · have hev : F R x (.cond c a b) =ᶠ[nhds (R.var x)] F R x b := by
+        filter_upwards [hs.1] with t ht
+        rw [hF, ht, hc]; simp
+      have hsb : SideOK R x b := by simpa [hc] using hs.2
+      rcases bool_cases (a.dependsOn x) with ha | ha <;> rcases bool_cases (b.dependsOn x) with hb | hb <;>
+        simp only [ha, hb] at h <;> dep_simp at h
+      · subst h; rw [ev_nzero R O hO]
+        exact (F_const R x b hp.2 hb).congr_of_eventuallyEq hev
+      all_goals
+        obtain ⟨da, hda, db, hdb, rfl⟩ := h
+        rw [ev_cond, hc]
+        exact (ihb db hp.2 hdb hsb).congr_of_eventuallyEq hev
+    · have hev : F R x (.cond c a b) =ᶠ[nhds (R.var x)] F R x a := by
+        filter_upwards [hs.1] with t ht
+        rw [hF, ht, hc]; simp
+      have hsa : SideOK R x a := by simpa [hc] using hs.2
+      rcases bool_cases (a.dependsOn x) with ha | ha <;> rcases bool_cases (b.dependsOn x) with hb | hb <;>
+        simp only [ha, hb] at h <;> dep_simp at h
+      · subst h; rw [ev_nzero R O hO]
+        exact (F_const R x a hp.1.2 ha).congr_of_eventuallyEq hev
+      all_goals
+        obtain ⟨da, hda, db, hdb, rfl⟩ := h
+        rw [ev_cond, hc]
+        exact (iha da hp.1.2 hda hsa).congr_of_eventuallyEq hev
   | cmp o a b _ _ => intro e' hp h hs; simp [SideOK] at hs
   | land a b _ _ => intro e' hp h hs; simp [SideOK] at hs
   | lor a b _ _ => intro e' hp h hs; simp [SideOK] at hs
